@@ -46,6 +46,9 @@ SETS = {
 }
 
 
+# NOT registered in any property: CBMC does not finish on it here (two attempts: 3-slot heaps ran past 15 min
+# at 4 GB; 2-slot heaps with allocation-free Zeroed data and no recursion in the assertions ran past 9 min at
+# 10 GB).  Vec<BinaryData> with Rc children is what explodes.  Kept so that the attempt can be repeated.
 SETS["allocator"] = {
     "custom": "allocator",
     "harness_file": "allocator.harness.rs",
